@@ -29,7 +29,7 @@ theorem lookup_sound (L : Labels) (regs : List String) (sc : Scope) (name : Stri
     (h : L.lookup regs sc name = .ok v) :
     (∃ f k, sc = .loc f k ∧ (f, k, name, v) ∈ L.loc) ∨
     ((sc.fileId, name, v) ∈ L.file) ∨
-    ((name, v) ∈ L.glob ∧ regs.contains name = false) := by
+    ((name, v) ∈ L.glob ∧ isRegName regs name = false) := by
   rw [lookup_eq] at h
   split at h
   · rename_i w hw
@@ -84,7 +84,7 @@ theorem lookup_complete_local (L : Labels) (regs : List String) (f k : Nat) (nam
 
 /-- a register name is never given a value -/
 theorem register_never_resolves (L : Labels) (regs : List String) (sc : Scope) (name : String)
-    (hk : labelKind name = 0) (hw : WellKinded L) (hr : regs.contains name = true) :
+    (hk : labelKind name = 0) (hw : WellKinded L) (hr : isRegName regs name = true) :
     ∃ e, L.lookup regs sc name = .error e :=
   ⟨_, lookup_error (scGet_none_of_kind hw.2 (by omega)) (fileGet_none_of_kind hw.1 (by omega))
     (.inl hr)⟩
@@ -148,7 +148,7 @@ theorem set_globKinded (L L' : Labels) (sc : Scope) (name : String) (v : Int)
 
 /-- after its definition a name resolves, from its own scope, to the defined value … -/
 theorem set_then_lookup (L L' : Labels) (regs : List String) (sc : Scope) (name : String) (v : Int)
-    (h : L.set sc name v = .ok L') (hw : WellKinded L) (hr : regs.contains name = false) :
+    (h : L.set sc name v = .ok L') (hw : WellKinded L) (hr : isRegName regs name = false) :
     L'.lookup regs sc name = .ok v := by
   obtain ⟨-, hc⟩ := set_cases h
   rcases hc with ⟨hk, hn, rfl⟩ | ⟨hk, hn, rfl⟩ | ⟨hk, f, k, rfl, hn, rfl⟩
